@@ -123,6 +123,18 @@ func smtChar(r rune) string {
 // regexToSMT translates a regexp/syntax AST. top: handle ^…$ anchoring of an unanchored search.
 func (in *Interp) regexToSMT(re *syntax.Regexp, atoms []Term, top bool) string {
 	if top {
+		// an unanchored search for an alternation is the union of the searches for its branches (each branch may carry its
+		// own ^ and $: `^a|b|c$` is (^a)|(b)|(c$)), and a capture group is transparent
+		switch re.Op {
+		case syntax.OpAlternate:
+			var parts []string
+			for _, s := range re.Sub {
+				parts = append(parts, in.regexToSMT(s, atoms, true))
+			}
+			return "(re.union " + strings.Join(parts, " ") + ")"
+		case syntax.OpCapture:
+			return in.regexToSMT(re.Sub[0], atoms, true)
+		}
 		subs := []*syntax.Regexp{re}
 		if re.Op == syntax.OpConcat {
 			subs = re.Sub
